@@ -27,13 +27,13 @@ type Arg struct {
 	L []Arg  `json:"l,omitempty"` // elements of an array
 }
 
-func strArg(s string) Arg       { return Arg{T: "string", Q: strconv.QuoteToASCII(s)} }
-func intArg(i int) Arg          { return Arg{T: "int", I: int64(i)} }
-func int64Arg(i int64) Arg      { return Arg{T: "int64", I: i} }
-func floatArg(f float64) Arg    { return Arg{T: "float64", U: math.Float64bits(f)} }
-func (a Arg) str() string       { s, _ := strconv.Unquote(a.Q); return s }
-func (a Arg) float() float64    { return math.Float64frombits(a.U) }
-func (a Arg) cplx() complex128  { return complex(math.Float64frombits(a.U), math.Float64frombits(a.V)) }
+func strArg(s string) Arg           { return Arg{T: "string", Q: strconv.QuoteToASCII(s)} }
+func intArg(i int) Arg              { return Arg{T: "int", I: int64(i)} }
+func int64Arg(i int64) Arg          { return Arg{T: "int64", I: i} }
+func floatArg(f float64) Arg        { return Arg{T: "float64", U: math.Float64bits(f)} }
+func (a Arg) str() string           { s, _ := strconv.Unquote(a.Q); return s }
+func (a Arg) float() float64        { return math.Float64frombits(a.U) }
+func (a Arg) cplx() complex128      { return complex(math.Float64frombits(a.U), math.Float64frombits(a.V)) }
 func listArg(t string, l []Arg) Arg { return Arg{T: t, L: l} }
 
 // goValue is the plain Go value of the argument.
